@@ -39,6 +39,7 @@ type C03Case struct {
 	Branch  bool    `json:"branch,omitempty"` // any live version may be the source of the next operation
 	KeysCap int     `json:"keyscap,omitempty"`
 	Live    int     `json:"live,omitempty"` // older versions re-observed after every step
+	Init    int     `json:"init,omitempty"` // number of entries of the first version (0: random small)
 	Ops     []C03Op `json:"ops,omitempty"`  // explicit history (replay of TLC-generated behaviours)
 	Origin  string  `json:"origin,omitempty"`
 }
@@ -413,6 +414,9 @@ func c03Generate(w *c03World, builders *[]*c03B) []C03Op {
 	if r.Intn(4) == 0 {
 		n0 = r.Intn(kcap + 1)
 	}
+	if c.Init > 0 {
+		n0 = c.Init
+	}
 	do(C03Op{Op: "new", Kd: kd, Ps: pairs(n0), Ctor: ct})
 	lastOf := func(kind string) int {
 		// source version: the newest of that kind (linear history) or any of that kind (branching)
@@ -505,7 +509,12 @@ func c03Generate(w *c03World, builders *[]*c03B) []C03Op {
 			case x < 90:
 				do(C03Op{Op: "removed", Kd: kd, A: a, K: key()})
 			default:
-				do(C03Op{Op: "removed2", Kd: kd, A: a, K: key(), K2: key()})
+				k1 := key()
+				k2 := key()
+				if r.Intn(2) == 0 { // keys that meet in one slot of the root but part ways below it
+					k2 = (k1+31)%c.NK + 1
+				}
+				do(C03Op{Op: "removed2", Kd: kd, A: a, K: k1, K2: k2})
 			}
 		} else {
 			b := anyOf("set", false)
